@@ -72,6 +72,7 @@ class Module:
         self.imports = {}     # local name -> (module, name) inside the package, or ('<ext>', dotted)
         self.consts = {}      # NAME -> ast expr (module-level simple assignments)
         self.late_attrs = {}   # (class name, attribute) -> ast expr assigned at module level after the class body
+        self.dynamic_stmts = []  # module-level control-flow statements, in source order (interpreted when one of the names they bind is looked up)
         self.unindexed = set()  # names bound at module level by statements the index does not follow (if / try / for / with / augmented assignment)
         self.classes = {}
         self.funcs = {}
@@ -143,6 +144,7 @@ class Program:
             elif isinstance(n, ast.AnnAssign) and isinstance(n.target, ast.Name) and n.value is not None:
                 m.consts[n.target.id] = n.value
             elif isinstance(n, (ast.If, ast.Try, ast.For, ast.While, ast.With, ast.AugAssign, ast.Delete)):
+                m.dynamic_stmts.append(n)
                 # names bound by module-level control flow are not indexed: looking one up is an analysis error, never a silent guess
                 for e in ast.walk(n):
                     if isinstance(e, ast.Name) and isinstance(e.ctx, (ast.Store, ast.Del)):
